@@ -24,7 +24,7 @@ PATTERNS = ["m", "fm_shared", "fm_own", "fbm"]
 
 def cases(tier, seed):
     rnd = random.Random(4000 + seed)
-    reps = 1 if tier == "quick" else 8
+    reps = 1 if tier == "quick" else 30
     for _ in range(reps):
         for mb, pat, lik, depth, fpv, det in itertools.product([[], [2]], PATTERNS, ["gauss", "fixed", "fixed+learn"], [1, 2, 3], [False, True], [True, False]):
             if pat == "fbm" and not mb:
@@ -41,6 +41,8 @@ def cases(tier, seed):
             yield {"kind": "modellist", "depth": depth, "seed": rnd.randrange(10**6)}
         for members, fpv in itertools.product((["fixed", "gauss"], ["gauss", "fixed"], ["fixed", "fixed"], ["fixed", "gauss", "fixed"], ["fixed+learn", "gauss"]), [False, True]):
             yield {"kind": "modellist", "depth": rnd.choice([1, 2]), "members": members, "fast_pred_var": fpv, "seed": rnd.randrange(10**6)}
+        for mean, depth, dims in itertools.product([0.0, 1.2], [1, 2, 3], [1, 2]):
+            yield {"kind": "kiss", "mean": mean, "depth": depth, "dims": dims, "seed": rnd.randrange(10**6)}
         for pol, fpv in itertools.product(["mask", "fill"], [False, True]):
             yield {"kind": "nan_source", "policy": pol, "fast_pred_var": fpv, "n": 6, "m": 2, "seed": rnd.randrange(10**6), "hostile": True}
 
@@ -157,6 +159,12 @@ def run_case(case, ctx):
         return _modellist(case, ctx, g)
     if case["kind"] == "nan_source":
         return _nan_source(case, ctx, g)
+    if case["kind"] == "kiss":
+        # kernel-specific strategy: the KISS-GP (interpolated) fantasy update against conditioning the same approximate
+        # kernel from scratch - the cell is shared with C09 (structure-exploiting strategies)
+        from vf.checks import c09
+
+        return c09._wiski(case, ctx, g)
     return _single(case, ctx, g)
 
 
